@@ -53,6 +53,11 @@ def handle (op : String) (j : Json) : Except String Json := do
   let horizon ← getNat j "horizon"
   let fuel := 4 * (evs.length + horizon) + 16
   let raiseAt := (getNat j "raise_at").toOption
+  -- closings firing inside subscribe: null (hot / never) | "fire" | ["E", name]
+  let sync : List (Option (Option Err)) := ((getArr j "sync").toOption.getD []).map fun
+    | .str "fire" => some none
+    | .arr #[.str "E", .str e] => some (some e)
+    | _ => none
   match op with
   | "win_count" =>
     let count ← getNat j "count"
@@ -60,15 +65,21 @@ def handle (op : String) (j : Json) : Except String Json := do
     pure (both (Cnt.run count skip (Cnt.init t0) evs).b.log
       ((Cnt.mach count skip).bufLog true horizon fuel t0 (Cnt.init t0) evs))
   | "win_bound" =>
-    pure (both (Bnd.run (Bnd.init t0) evs).b.log (Bnd.mach.bufLog false horizon fuel t0 (Bnd.init t0) evs))
+    -- boundaries delivering inside their own subscribe: absent/null (hot timeline) | "N" | "C" | ["E", name]
+    let bsync : Option (Notif Unit) := match (j.getObjVal? "bsync").toOption with
+      | some (.str "N") => some (.next ())
+      | some (.str "C") => some .completed
+      | some (.arr #[.str "E", .str e]) => some (.error e)
+      | _ => none
+    pure (both (Bnd.run (Bnd.init t0 bsync) evs).b.log (Bnd.mach.bufLog false horizon fuel t0 (Bnd.init t0 bsync) evs))
   | "win_when" =>
     let pool ← getNat j "pool"
-    pure (both (Whn.run raiseAt pool (Whn.init raiseAt pool t0) evs).b.log
-      ((Whn.mach raiseAt pool).bufLog false horizon fuel t0 (Whn.init raiseAt pool t0) evs))
+    pure (both (Whn.run raiseAt pool (Whn.init raiseAt pool t0 sync) evs).b.log
+      ((Whn.mach raiseAt pool).bufLog false horizon fuel t0 (Whn.init raiseAt pool t0 sync) evs))
   | "win_toggle" =>
     let pool ← getNat j "pool"
-    pure (both (Tgl.run raiseAt pool (Tgl.init t0) evs).b.log
-      ((Tgl.mach raiseAt pool).bufLog false horizon fuel t0 (Tgl.init t0) evs))
+    pure (both (Tgl.run raiseAt pool (Tgl.init t0 sync) evs).b.log
+      ((Tgl.mach raiseAt pool).bufLog false horizon fuel t0 (Tgl.init t0 sync) evs))
   | "win_time" =>
     let span ← getNat j "span"
     let shift ← getNat j "shift"
